@@ -413,7 +413,7 @@ func c11(c *hx.Ctx) {
 	rest := c.N - nValid
 	for i := 0; i < rest; i++ {
 		k := keys[c.Rng.Intn(len(keys))]
-		switch c.Rng.Intn(8) {
+		switch c.Rng.Intn(9) {
 		case 0: // raw private key lengths
 			n := []int{0, 1, 31, 32, 33, 63, 64, 65, 95, 96, 97, 128}[c.Rng.Intn(12)]
 			d := cat(k.raw, k.pub, c.RandBytes(32))[:n]
@@ -505,6 +505,43 @@ func c11(c *hx.Ctx) {
 				c11Conf(c, k.pubB58, "conf-pub-as-priv")
 			} else {
 				c11Conf(c, string(k.pubPem), "conf-pubpem-as-priv")
+			}
+		case 7: // a key decoded from an equivalent non-canonical encoding is the same key
+			data := k.raw
+			if c.Rng.Intn(3) == 0 {
+				data = cat(k.raw, k.pub)
+			}
+			enc, ec := extrasProto(c, 1, data)
+			c.Class("decoded-" + ec)
+			desc := map[string]any{"kind": "decoded-priv", "class": ec, "encoding": hx.Hex(enc)}
+			var sk crypto.PrivKey
+			var err error
+			var p bool
+			o := guarded(c, "UnmarshalPrivateKey", desc, [][]byte{enc}, func() string {
+				p, _ = hx.Catch(func() { sk, err = crypto.UnmarshalPrivateKey(enc) })
+				return obsBytes(p, rawPriv(sk), err, keyErrClass(err))
+			})
+			c.Case(hx.App("UnmarshalPriv", hx.Bytes(enc), o), desc)
+			if p || err != nil || sk == nil {
+				c.Failf("decoded-key-differs", desc, "equivalent encoding of a private key rejected: panic=%v err=%v", p, err)
+				break
+			}
+			m1, _ := crypto.MarshalPrivateKey(sk)
+			id1, _ := peer.IDFromPrivateKey(sk)
+			id2, _ := peer.IDFromPrivateKey(k.sk)
+			if !bytes.Equal(rawPriv(sk), k.raw) || !sk.Equals(k.sk) || !k.sk.Equals(sk) || !bytes.Equal(m1, k.marshalled) ||
+				!bytes.Equal(rawPub(sk.GetPublic()), k.pub) || id1 != id2 {
+				c.Failf("decoded-key-differs", desc, "key decoded from an equivalent encoding differs from the original")
+			}
+			c.Case(hx.App("MarshalPriv", hx.Bytes(rawPriv(sk)), hx.Bytes(m1)), desc)
+			// and through the text forms
+			if sk2, _ := c11Conf(c, b58.Encode(enc), "conf-b58-of-decoded-"+ec); sk2 == nil || !sk2.Equals(k.sk) {
+				c.Failf("decoded-key-differs", desc, "base58 of an equivalent encoding does not give the same key")
+			}
+			pemDat := pem.EncodeToMemory(&pem.Block{Type: keypem.PrivPemType, Bytes: enc})
+			c11Pem(c, pemDat, "pem-of-decoded-"+ec)
+			if sk3, err := keypem.ParsePrivKeyPem(pemDat); err != nil || sk3 == nil || !sk3.Equals(k.sk) {
+				c.Failf("decoded-key-differs", desc, "PEM of an equivalent encoding does not give the same key: %v", err)
 			}
 		default: // base58 of random bytes
 			c11Conf(c, b58.Encode(c.RandBytes(1+c.Rng.Intn(70))), "conf-b58-random")
